@@ -35,6 +35,8 @@ type Step struct {
 	Park    int    `json:"park,omitempty"` // startreq: park after this many Writes
 	AtStack bool   `json:"park_at_stack,omitempty"` // startreq: park right before the handler captures its dump
 	Hop     int    `json:"hop,omitempty"`           // spawn: 1 = through a generic function, 2 = through a closure inside a method
+	Via     bool   `json:"via_helper,omitempty"`    // spawn: the go statement is executed by a short-lived helper goroutine (another parent id)
+	FailAt  int    `json:"fail_at_write,omitempty"` // failreq: the client hangs up, every Write from this one on fails
 	Full    bool   `json:"full_opts,omitempty"`
 }
 
@@ -154,7 +156,7 @@ func GenPlan(r *core.Rng, seed, run uint64) *Plan {
 				burst = r.Range(2, 30)
 			}
 			for b := 0; b < burst && live < maxLive; b++ {
-				s := Step{Op: "spawn", Kind: kinds[r.Intn(len(kinds))], Creator: r.Intn(4), Locked: r.Chance(0.1), Hop: []int{0, 0, 0, 1, 2}[r.Intn(5)]}
+				s := Step{Op: "spawn", Kind: kinds[r.Intn(len(kinds))], Creator: r.Intn(4), Locked: r.Chance(0.1), Hop: []int{0, 0, 0, 1, 2}[r.Intn(5)], Via: r.Chance(0.3)}
 				if (s.Kind == "nilrecv" || s.Kind == "nilsend" || s.Kind == "selectnone") && leaks >= 2 {
 					s.Kind = "recv"
 				}
@@ -196,6 +198,11 @@ func GenPlan(r *core.Rng, seed, run uint64) *Plan {
 			p.Steps = append(p.Steps, Step{Op: "snapshot", Full: r.Chance(0.3)})
 		case k < 18:
 			m, q, _ := genQuery(r)
+			if r.Chance(0.15) {
+				// fault at the ResponseWriter: the client hangs up during the response
+				p.Steps = append(p.Steps, Step{Op: "failreq", Method: "GET", Query: q, FailAt: r.Range(1, 6)})
+				m, q, _ = genQuery(r)
+			}
 			p.Steps = append(p.Steps, Step{Op: "request", Method: m, Query: q})
 		case k < 19 && parked < 3:
 			m, q, _ := genQuery(r)
@@ -238,6 +245,7 @@ type entry struct {
 	started chan struct{}
 	fresh   bool // created, not yet observed running: its state and frames are not known
 	hop     int  // 1: body -> genericHop[T] -> rec ; 2: body -> (*entry).viaClosure -> closure -> rec
+	parent  int  // id of the goroutine that executed the go statement
 }
 
 var reSelfID = regexp.MustCompile(`^goroutine (\d+) `)
@@ -549,6 +557,9 @@ func (c *checker) checkLibrary(dump []byte, reg []*entry, opts *stack.Opts) {
 			if strings.Join(fr, ",") != strings.Join(want, ",") {
 				c.fail("registry", "goroutine %d (%s, depth %d, hop %d): harness frames are %v, expected %v", e.id, e.kind, e.depth, e.hop, clipList(fr), clipList(want))
 			}
+		}
+		if e.parent > 0 && len(g.CreatedBy.Calls) > 0 && !strings.HasSuffix(g.CreatedBy.Calls[0].Func.Complete, fmt.Sprintf(" in goroutine %d", e.parent)) {
+			c.fail("registry", "goroutine %d was started by goroutine %d but its creator reads %q", e.id, e.parent, g.CreatedBy.Calls[0].Func.Complete)
 		}
 		if len(g.CreatedBy.Calls) == 0 || g.CreatedBy.Calls[0].Func.Name != creatorNames[e.creator] {
 			name := "<none>"
